@@ -1123,8 +1123,6 @@ Proof.
 Qed.
 
 (* ---------------------------------------------------------------- the image, as a predicate on trees *)
-Definition in_image (t : tree) : Prop := exists d, xwf_doc d = true /\ t = xtree_of d.
-
 Theorem in_image_iff t : in_image t <-> exists s, from_str s = Ok t.
 Proof.
   split.
@@ -1184,4 +1182,48 @@ Proof.
     assert (E2 : match map xitem_of its with [] => match r with [] => false | _ => true end | _ => true end
                  = match its with [] => match r with [] => false | _ => true end | _ => true end) by (destruct its; reflexivity).
     rewrite E2, (Hf f _ Hfl). cbn [andb]. destruct r as [|b2 r2]; [reflexivity|]. destruct b2; try discriminate. reflexivity.
+Qed.
+
+Lemma telems_map_conts cs : telems (flat_map xcont_toks (map xcont_of cs)) = flat_map cont_elems cs.
+Proof. induction cs as [|[i t] r IH]; [reflexivity|]. cbn [map flat_map]. rewrite telems_app, IH. reflexivity. Qed.
+Lemma tstr_map_conts cs : tstr (flat_map xcont_toks (map xcont_of cs)) = flat_map cont_text cs.
+Proof. induction cs as [|[i t] r IH]; [reflexivity|]. cbn [map flat_map]. rewrite tstr_app, IH. unfold xcont_of, cont_text. cbn. rewrite app_nil_r. reflexivity. Qed.
+Lemma xfield_of_tree f : xfield_tree (xfield_of f) = field_tree f.
+Proof.
+  unfold xfield_tree, field_tree, xfield_toks, xfield_of. cbn [x_name x_w0 x_w1 x_first x_cont x_nl opt_tok app].
+  repeat (rewrite telems_cons || rewrite telems_app). rewrite !telems_opt, telems_map_conts. destruct (f_nl f); reflexivity.
+Qed.
+Lemma xfield_of_text f : tstr (xfield_toks (xfield_of f)) = field_text f.
+Proof.
+  unfold field_text, xfield_toks, xfield_of. cbn [x_name x_w0 x_w1 x_first x_cont x_nl opt_tok app].
+  rewrite tstr_cons, tstr_cons, !tstr_app, !tstr_opt, tstr_map_conts. cbn [app]. destruct (f_nl f); cbn; rewrite ?app_nil_r; reflexivity.
+Qed.
+Lemma xitems_of_elems its : flat_map xitem_elems (map xitem_of its) = flat_map item_elems its.
+Proof.
+  induction its as [|it r IH]; [reflexivity|]. cbn [map flat_map]. rewrite IH. f_equal. destruct it as [f|c nl]; cbn [xitem_of xitem_elems item_elems].
+  - rewrite xfield_of_tree. reflexivity.
+  - destruct nl; reflexivity.
+Qed.
+Lemma xitems_of_text its : tstr (flat_map xitem_toks (map xitem_of its)) = flat_map item_text its.
+Proof.
+  induction its as [|it r IH]; [reflexivity|]. cbn [map flat_map]. rewrite tstr_app, IH. f_equal. destruct it as [f|c nl]; cbn [xitem_of xitem_toks item_text].
+  - apply xfield_of_text.
+  - unfold xcomment_toks, comment_text. destruct nl; cbn; rewrite ?app_nil_r; reflexivity.
+Qed.
+
+(* C03's documents: the same text, the same tree, well-formed as layouts *)
+Theorem grammar_in_image d : wf_doc d = true ->
+  xwf_doc (xdoc_of d) = true /\ xrender (xdoc_of d) = render d /\ xtree_of (xdoc_of d) = tree_of d.
+Proof.
+  intros H. split; [apply xdoc_of_wf, H|]. clear H. split.
+  - unfold xrender, render, xdoc_toks, xdoc_of. induction d as [|b r IH]; [reflexivity|]. cbn [map flat_map]. rewrite tstr_app, IH. f_equal.
+    destruct b as [|c nl|f its]; cbn [xblock_of xblock_toks block_text].
+    + reflexivity.
+    + unfold xcomment_toks, comment_text. destruct nl; cbn; rewrite ?app_nil_r; reflexivity.
+    + rewrite tstr_app, xfield_of_text, xitems_of_text. reflexivity.
+  - unfold xtree_of, tree_of, xdoc_of. f_equal. rewrite map_map. apply map_ext. intros b.
+    destruct b as [|c nl|f its]; cbn [xblock_of xblock_tree block_tree].
+    + reflexivity.
+    + destruct nl; reflexivity.
+    + rewrite xfield_of_tree, xitems_of_elems. reflexivity.
 Qed.
